@@ -22,9 +22,21 @@ def setSeq (sv' : SeqVars) (st : St) : St :=
   | .seq _ :: fs => { st with stack := .seq sv' :: fs }
   | _ => st
 
-/-- **The loop's step rule**: nothing past the end; otherwise element `i` is rendered once with
-the sequence variables of position `i`, then the loop continues with `i + 1` -/
-theorem inLoop_step (env : Env) (fuel : Nat) (sv : SeqVars) (o : InOpts) (body : List Blk) (i : Nat) (st : St) :
+theorem itemDenied_noguard (env : Env) (sv : SeqVars) (i : Nat) (hg : env.guardOn = false) : itemDenied env sv i = false := by
+  simp [itemDenied, hg]
+
+theorem startedAt_noguard (env : Env) (o : InOpts) (sv : SeqVars) (i : Nat) (hg : env.guardOn = false) :
+    startedAt env o sv i = (i == 0) := by
+  unfold startedAt
+  by_cases h : i = 0
+  · simp [h]
+  · simp [h, itemDenied_noguard env sv _ hg]
+
+/-- **The loop's step rule** (no item guard installed; with a guard see C05): nothing past the end;
+otherwise element `i` is rendered once with the sequence variables of position `i`, then the loop
+continues with `i + 1` -/
+theorem inLoop_step (env : Env) (hg : env.guardOn = false) (fuel : Nat) (sv : SeqVars) (o : InOpts) (body : List Blk)
+    (i : Nat) (st : St) :
     inLoop env (fuel + 1) sv o body i st =
       if i ≥ sv.items.length then (.ok [], st)
       else
@@ -36,14 +48,14 @@ theorem inLoop_step (env : Env) (fuel : Nat) (sv : SeqVars) (o : InOpts) (body :
         | (.raise e, st2) => (.raise e, st2)
         | (.ret v, st2) => (.ret v, st2)
         | (.oom, st2) => (.oom, st2) := by
-  simp only [inLoop, svAt, setSeq]
+  simp only [inLoop, svAt, setSeq, itemDenied_noguard env sv i hg, startedAt_noguard env o sv i hg, hg]
   rfl
 
 theorem svAt_items (sv : SeqVars) (i : Nat) : (svAt sv i).items = sv.items := rfl
 
 /-- **Once per element**: a loop that completes from element `i` has rendered the body exactly
 once for each of the elements `i … n-1` (one result per element, in order) -/
-theorem in_once_per_element (env : Env) : ∀ (fuel : Nat) (sv : SeqVars) (o : InOpts) (body : List Blk) (i : Nat)
+theorem in_once_per_element (env : Env) (hg : env.guardOn = false) : ∀ (fuel : Nat) (sv : SeqVars) (o : InOpts) (body : List Blk) (i : Nat)
     (st st' : St) (ps : List Piece),
     inLoop env fuel sv o body i st = (.ok ps, st') → ps.length = sv.items.length - i := by
   intro fuel
@@ -51,7 +63,7 @@ theorem in_once_per_element (env : Env) : ∀ (fuel : Nat) (sv : SeqVars) (o : I
   | zero => intro sv o body i st st' ps h; simp [inLoop] at h
   | succ n ih =>
     intro sv o body i st st' ps h
-    rw [inLoop_step] at h
+    rw [inLoop_step env hg] at h
     split at h
     · rename_i hge
       simp only [Prod.mk.injEq, Res.ok.injEq] at h
